@@ -1,13 +1,14 @@
 ------------------------------ MODULE C48Trace ------------------------------
 (***************************************************************************)
-(* Leg C for C48.  One trace line per executed case:                       *)
+(* Leg C for C48.  One trace line per executed case = one rewritten block  *)
+(* holding a group of generated inputs (n of them; each input's series and *)
+(* requests carry their own case label / case matcher):                    *)
 (*   series   the series written into the input block (concrete labels     *)
 (*            incl. the harness's case label, chunks of [t, v] samples)    *)
 (*   reqs     the deletion requests given to WithDeletionModifier          *)
 (*            (concrete matchers incl. the case matcher, closed intervals) *)
 (*   got.err  "" or the error of WriteSeries / Flush / reading the result  *)
-(*   got.series  the series of the rewritten block that carry this case's  *)
-(*            label, chunk by chunk                                        *)
+(*   got.series  the series of the rewritten block, chunk by chunk          *)
 (* Judged with the property-level operator WViolations of Rewrite.tla.     *)
 (***************************************************************************)
 EXTENDS TraceLib, Rewrite
